@@ -55,6 +55,8 @@ pub struct WorldB {
     deadlines_h: Vec<u64>,
     deadlines_t: Vec<u64>,
     queue: std::collections::VecDeque<Step>,
+    /// admin sets as the history of successful UpdateAdmins requests defines them (request model)
+    model_admins: BTreeMap<String, std::collections::BTreeSet<String>>,
 }
 
 fn cm(v: &CosmosMsg) -> Value {
@@ -271,6 +273,19 @@ impl WorldB {
                 } else {
                     (false, BTreeMap::new())
                 };
+                if is_admin && !msgs.is_empty() {
+                    if let Some(ma) = self.model_admins.get(&f.addr) {
+                        if !ma.contains(&f.sender) && !(is_sk && self.covered(pre, &f.sender, &msgs, &f.block).0) {
+                            self.viol(
+                                out,
+                                "C07",
+                                "relayed-for-caller-removed-from-admins",
+                                json!({"subkeys": is_sk}),
+                                format!("Execute by {} relayed {} messages; by the history of successful UpdateAdmins calls it is no longer an admin", f.sender, msgs.len()),
+                            );
+                        }
+                    }
+                }
                 if !cov {
                     self.viol(
                         out,
@@ -461,6 +476,9 @@ impl WorldB {
                 }
                 if committed {
                     self.meter.flag("admins_updated");
+                    if is_admin && pre.mutable {
+                        self.model_admins.insert(f.addr.clone(), want.iter().cloned().collect());
+                    }
                 }
                 self.meter.token("update_admins", role, if committed { "committed" } else { "rolled-back" }, want.len() as u64);
             }
@@ -914,10 +932,13 @@ impl World for WorldB {
             deadlines_h: vec![],
             deadlines_t: vec![],
             queue: Default::default(),
+            model_admins: BTreeMap::new(),
         };
         w.meter.flag("instantiated");
         let mut pend = vec![];
         w.check_state(false, &mut pend);
+        w.model_admins.insert(w.wl.clone(), cfg.wl_admins.iter().map(|a| addr_of(a)).collect());
+        w.model_admins.insert(w.sk.clone(), cfg.sk_admins.iter().map(|a| addr_of(a)).collect());
         // bulk subkeys with allowances (some expiring soon) and permissions
         if cfg.bulk > 0 {
             if let Some(adm) = w.last.get("sk").and_then(|s| s.admins.first().cloned()) {
